@@ -50,16 +50,23 @@ def read_trace(d: str) -> list[list[str]]:
         return [line.decode('utf-8', 'replace').split(' ') for line in f.read().splitlines() if line]
 
 
-def gate_wait(name: str) -> None:
+def gate_wait(name: str, stubborn: bool = False) -> None:
     d = os.environ.get('VERIF_OBS_DIR')
     if not d or not os.path.exists(os.path.join(d, 'gated')):
         return
     g = os.path.join(d, f'gate.{name}')
-    deadline = time.monotonic() + 300
+    deadline = time.monotonic() + (25 if stubborn else 300)
     while not os.path.exists(g):
         if time.monotonic() > deadline:
             raise RuntimeError(f'gate for {name} never opened (harness timeout)')
-        time.sleep(0.002)
+        if stubborn:
+            # user code with a catch-all retry loop: nothing raised inside it (SystemExit, KeyboardInterrupt, ...) ends the task
+            try:
+                time.sleep(0.002)
+            except BaseException:
+                continue
+        else:
+            time.sleep(0.002)
 
 
 # ---------------------------------------------------------------------------------------------------
@@ -112,7 +119,7 @@ def _die(sig, name):
 
 
 def _act(self, mode: str):
-    if mode == 'ok' or mode == 'probe':
+    if mode in ('ok', 'probe', 'stubborn'):
         return
     if mode.startswith('raise:'):
         raise EXC_TYPES[mode.split(':', 1)[1]](f'boom {self.name}')
@@ -157,7 +164,7 @@ def node_run(self):
 def _node_body(self):
     name = self.name
     tname = type(self).__name__
-    gate_wait(name)
+    gate_wait(name, stubborn=(self.mode == 'stubborn'))
     dep_digests = []
     if self.read:
         for dep in walk_tasks(self.deps):
